@@ -15,7 +15,7 @@ import time
 from sim import env, nodeworld
 from sim.harness import Check, Violation
 
-from frappy.errors import HardwareError
+from frappy.errors import HardwareError, RangeError
 from frappy.core import Drivable, FloatRange, IntRange, Limit, Module, Parameter, Writable
 from frappy.extparams import FloatEnumParam, StructParam
 from frappy.mixins import HasControlledBy, HasOutputModule
@@ -55,7 +55,7 @@ class C18(Check):
         shape = {'p_switch': rng.choice([0.1, 0.3]), 'line_gaps': rng.choice([0, 0, 10]),
                  'members': members, 'struct_rw': rng.random() < 0.5, 'labels': labels,
                  'limits': rng.choice(['min', 'max', 'minmax', 'limits']), 'nctl': rng.choice([1, 2, 3]),
-                 'poll': rng.random() < 0.5}
+                 'poll': rng.random() < 0.5, 'split': rng.random() < 0.4}
         ops = []
         for _ in range(rng.randrange(3, 26 if tier == 'thorough' else 18)):
             who = rng.choice(['wire', 'wire', 'driver'])
@@ -154,7 +154,18 @@ class C18(Check):
         ns['write_x'] = write_x
         ns['_limits_now'] = _limits_now
         ns['enablePoll'] = shape['poll']
-        LMod = type('LinkedMod', (Module,), ns)
+        if shape.get('split'):
+            # the parameter and a hand-written check hook live in a base class, the limit parameters are declared
+            # in the subclass: hook and limits both apply
+            def check_x(self, value):
+                if value == 77.77:
+                    raise RangeError('x = 77.77 is forbidden')
+            base_ns = {'__module__': __name__, 'x': ns.pop('x'), 'check_x': check_x}
+            LBase = type('LinkedBase', (Module,), base_ns)
+            LMod = type('LinkedMod', (LBase,), ns)
+        else:
+            LBase = None
+            LMod = type('LinkedMod', (Module,), ns)
 
         class Out(HasControlledBy, Writable):
             enablePoll = False
